@@ -55,6 +55,26 @@ CLAIMED = {
              "(all aliasing patterns, identity-class operands, boundary scalars).",
         note="gnark-crypto's GLV scalar multiplication is modelled by its specification (double-and-add), compared differentially.",
         tech="Coq proof (ring/field identities on coordinate formulas) + differential correspondence", ref="DESIGN.md 6.8"),
+    "C06": dict(
+        text="Theorems for every byte string: the compressed untrusted decoder accepts iff the exact decidable predicate "
+             "accepts32 holds (length 32, value < p, computeY finds a root, Legendre(1-a x^2)=1), is total, and each failing "
+             "condition yields its error; the result has Z=1, x = the encoded integer; accepted input re-encodes to the same "
+             "bytes, so two accepted strings decoding to one element are identical; same for the uncompressed untrusted form "
+             "(canonical x, y bytes = canonical largest root, subgroup test); the pinned reducing-x decoder is refuted by a "
+             "kernel-evaluated witness (F2). Not proved: computeY's root squares to the curve value (C17 partial), order "
+             "dividing r. Correspondence: boundary integers, x+p aliases, non-subgroup / off-curve x, all lengths, both signs of y.",
+        note="'order divides r' needs point counting; sqrt soundness is only partially proved (C17).",
+        tech="Coq proof (case analysis of the decoder, byte/integer codec lemmas, vm_compute witness) + differential correspondence", ref="DESIGN.md 6.6"),
+    "C10": dict(
+        text="Theorems for every stream, every chunk plan and both EOF styles: MultiProof.Read (repaired probe) equals the pure "
+             "decoding mp_decode of the stream content (so the outcome is chunking-independent); accepted strings have exactly "
+             "576 bytes (IPAProof.Read consumes exactly 544) with 17 (16) accepted point fields and a canonical scalar; an I/O "
+             "error before byte 576/544 gives an error; Read(Write p) = p and Write(decode s) = s (under the point-codec "
+             "premises of C06); a writer failing at any call makes Write fail; the pinned EOF probe is refuted for every "
+             "accepted string (F3). Correspondence: bytes.Reader, 1-byte readers, random chunk plans, data+EOF readers, "
+             "errors at offsets, failing writers, boundary field values in each of the 18 positions.",
+        note="Readers returning (0, nil) are excluded (io.Reader discourages them). io.ReadAtLeast is modelled.",
+        tech="Coq proof (induction over the ReadAtLeast loop with arbitrary chunk plans, refinement to a pure decoder) + differential correspondence", ref="DESIGN.md 6.10"),
     "C07": dict(
         text="Theorems: Bytes is a function of the Banderwagon class of the represented affine point only (invariant under every "
              "projective rescaling incl. the Z=1 fast path and under (x,y)->(-x,-y)), always 32 bytes; Equal holds between all "
